@@ -44,7 +44,9 @@ structure Ts where
   nanos : Int
 deriving DecidableEq, Repr, Inhabited
 
-/-- `a.AsTime().Before(b.AsTime())` for protobuf-valid timestamps (nanos in [0, 1e9)). -/
+/-- the order of two client timestamps: seconds, then nanoseconds, compared as they are (`older` in
+    modules/vikja/state.go; before the repair F43 the code compared `time.Time` values, which wrap for seconds near the
+    top of the int64 range) -/
 def Ts.before (a b : Ts) : Bool :=
   a.secs < b.secs || (a.secs == b.secs && a.nanos < b.nanos)
 
